@@ -93,15 +93,29 @@ def state_changes(o, root, I):
     return out
 
 def template_writers(f):
-    """Bodies other than start() / next() of the adapter that could write the saved handle: they touch the field `ldap` of the
-    adapter struct through something else than a shared reference to the adapter (who-may-touch, F10)."""
+    """Bodies other than start() / next() of the adapter that could write the saved handle (who-may-touch, F10): they use the
+    adapter's field of type Option<Ldap> - or a place inside it - mutably: as the target of an assignment, under `&mut`, or as the
+    receiver of a `&mut self` method."""
     out = []
-    for path, n, c in hirq.field_accesses(f, lambda n: n.get('name') == 'ldap' and hirq.strip_refs(n['e'].get('ty') or '').startswith('ldap3::adapters::PagedResults<')):
+    for path, n, c in hirq.field_accesses(f, lambda n: hirq.strip_refs(n.get('ty') or '') == 'core::option::Option<ldap3::ldap::Ldap>'
+                                          and hirq.strip_refs(n['e'].get('ty') or '').startswith('ldap3::adapters::PagedResults<')):
         if path.startswith(PR + 'start') or path.startswith(PR + 'next'):
             continue
-        if (n['e'].get('ty') or '').startswith('&') and not (n['e'].get('ty') or '').startswith('&mut '):
-            continue            # reached through `&PagedResults`: read-only (the handle's controls are plain data, no interior mutability)
-        out.append(path)
+        top, up = n, list(c)
+        while True:
+            if (top.get('adj_ty') or '').startswith('&mut '):
+                out.append(path); break
+            if not up:
+                break
+            par, role = up.pop()
+            if par['k'] in ('Assign', 'AssignOp') and par['l'] is top:
+                out.append(path); break
+            if par['k'] == 'AddrOf' and par.get('mut') and par['e'] is top:
+                out.append(path); break
+            if (par['k'] in ('Field', 'Index') and par['e'] is top) or (par['k'] == 'Unary' and par.get('op') == 'Deref') \
+                    or (par['k'] == 'MethodCall' and par['recv'] is top and hirq.is_transparent(callee_of(par) or '')):
+                top = par; continue       # a place inside the field / a reborrow of it: look at how *that* is used
+            break
     return sorted(set(out))
 
 def run(ctx):
@@ -203,8 +217,12 @@ def run(ctx):
             if t and a[0] in ('any', 'position') and a[1] == T0 and a[3] and all(any(tr and is_oid_test(c) for c, tr in cnd) for cnd in a[3]):
                 return True
         return False
+    judged = []
+    request_fields = set()      # the fields of the adapter a follow-up request is built from (read off the follow-up paths)
     def judge_state(o, which):
-        ch = state_changes(o, SELF, I)
+        judged.append((o, which))
+    def judge_state_now(o, which):
+        ch = [c for fld in sorted(request_fields) for c in state_changes(o, ('field', SELF, fld), I)]
         ctx.add('A2.saved-state-unchanged', which, loc(N.root), not ch,
                 'next() must leave what it saved for the follow-up requests (handle, controls, base, scope, filter, attrs, page size) as it found it - '
                 'a later page would be asked for with something else: %s' % '; '.join(ch)[:200])
@@ -308,6 +326,8 @@ def run(ctx):
         sterm = ('await', ('call', s[1], s[2], s[3].get('id')))
         sok = next((t for a, t in o.st.pc if a == ('is', sterm, 'Ok')), None)
         which = 'follow-up|ok' if sok is True else 'follow-up|err'
+        used = [s[2], c2] + [h.get(('field', H2, fld), ('unk',)) for fld in ('timeout', 'search_opts')]
+        request_fields.update(x[2] for x in absx.leaves(tuple(used), lambda x: x[0] == 'field' and x[1] == SELF))
         seen.add(which)
         judge_state(o, which)
         ctx.add('A2.follow-up-handle', which, loc(s[3]), okc and okt, 'the follow-up search is not issued on a clone of the saved handle with its timeout and options')
@@ -319,6 +339,8 @@ def run(ctx):
             ctx.add('A2.splices-new-stream', which, loc(N.root), oksp, 'after a successful follow-up the stream must continue on the new search\'s handle and receiver')
         else:
             ctx.add('A2.follow-up-error-returned', which, loc(N.root), o.kind == 'ret' and sem.is_err_result(o.val) and sem.has(o.val, lambda x: x == sterm) and not removes, 'a failed follow-up search must be returned as the error')
+    for o, which in judged:
+        judge_state_now(o, which)
     for need in ('passthrough', 'no-result', 'no-paging-control', 'last-page', 'follow-up|ok', 'follow-up|err'):
         ctx.add('A2.coverage', need, loc(N.root), need in seen, 'no path of next() for ' + need)
     # finish delegates
